@@ -1,14 +1,18 @@
 (* C08/Properties.v — property C08: runtime storage transactions are transparent and roll back
    exactly.  Only statements, each closed by `exact <lemma>`, with Print Assumptions beneath.
 
-   run cfg_fixed  : the model of TrieState/storageDiff after fixes/C08-1..5 (Model.v)
-   srun           : Substrate's overlay semantics as a stack of complete states (ModelSpec.v)
+   run cfg_fixed  : the model of TrieState/storageDiff after fixes/C08-1..5 and C08-7 (Model.v)
+   srun           : Substrate's overlay semantics as a stack of complete states (ModelSpec.v):
+                    a limited clear removes every overlay key in the range and then visits at most
+                    `limit` backend keys (already deleted ones count); clear_prefix refuses a
+                    prefix that is part of, or contains, ":child_storage:"
    agrees         : equal reads (get, next-key, entries, child get/next-key/key listing; error
                     returns of child reads = "no such child"), and, once all transactions are
                     closed, equal committed contents whose root is the root of those contents
    guard_free     : no operation of the history lies in a known-finding class (ModelGuards.v) *)
 From Common Require Import Bytes.
-From C08 Require Import ModelMap Model ModelSpec ModelGuards ProofsTx ProofsMain ProofsFull ProofsCommit ProofsWitness.
+From C08 Require Import ModelMap Model ModelSpec ModelGuards ModelCheck ProofsTx ProofsMain ProofsFull ProofsCommit
+     ProofsWitness ProofsCheck.
 Local Open Scope N_scope.
 
 (* For every history of runtime storage operations on main and child storage (get, set, delete,
@@ -88,20 +92,63 @@ Proof.
 Qed.
 Print Assumptions C08_pinned_refuted.
 
+(* The code after fixes C08-1..5 and before C08-7 (cfg_pre7) violates it too: ClearPrefix /
+   ClearPrefixLimit with a prefix that is part of ":child_storage:" (here the empty prefix) remove
+   the child trie roots kept in the main trie - at once outside a transaction, at the outermost
+   commit inside one - where Substrate refuses the call. *)
+Theorem C08_pre7_refuted :
+  ~ agrees (run cfg_pre7 w_clear_roots ts_init) (srun w_clear_roots ss_init) w_clear_roots /\
+  ~ agrees (run cfg_pre7 w_clear_roots_tx ts_init) (srun w_clear_roots_tx ss_init) w_clear_roots_tx.
+Proof. exact pre7_clear_roots. Qed.
+Print Assumptions C08_pre7_refuted.
+
 (* ... on which the repaired code agrees with the specification *)
 Theorem C08_fixed_witnesses :
   Forall (fun w => agrees (run cfg_fixed w ts_init) (srun w ss_init) w)
-         [w_prefix_key; w_child_reset; w_child_keys; w_namespace; w_child_kill; w_child_direct].
+         [w_prefix_key; w_child_reset; w_child_keys; w_namespace; w_child_kill; w_child_direct;
+          w_clear_roots; w_clear_roots_tx].
 Proof. exact fixed_agrees_witnesses. Qed.
 Print Assumptions C08_fixed_witnesses.
 
 (* The repaired code still violates the full statement inside the two finding classes
-   (known-findings tx-limit and direct-limit-order); the guards flag the witnesses *)
+   (known-findings tx-limit and direct-limit-order); the guards flag the witnesses.
+   tx-limit: a pending upsert sorted after the stopping point survives (w_tx_limit), limit 0 keeps
+   every pending upsert (w_tx_limit0), committed keys overwritten in the transaction do not count
+   against the limit (w_tx_limit_over). *)
 Theorem C08_findings_refuted :
   (~ agrees (run cfg_fixed w_tx_limit ts_init) (srun w_tx_limit ss_init) w_tx_limit /\
    ~ agrees (run cfg_fixed w_tx_limit0 ts_init) (srun w_tx_limit0 ss_init) w_tx_limit0 /\
    guard_free cfg_fixed w_tx_limit = false /\ guard_free cfg_fixed w_tx_limit0 = false) /\
+  (~ agrees (run cfg_fixed w_tx_limit_over ts_init) (srun w_tx_limit_over ss_init) w_tx_limit_over /\
+   guard_free cfg_fixed w_tx_limit_over = false) /\
   (~ agrees (run cfg_fixed w_direct_order ts_init) (srun w_direct_order ss_init) w_direct_order /\
    guard_free cfg_fixed w_direct_order = false).
-Proof. exact (conj fixed_tx_limit fixed_direct_order). Qed.
+Proof. exact (conj fixed_tx_limit (conj fixed_tx_limit_over fixed_direct_order)). Qed.
 Print Assumptions C08_findings_refuted.
+
+(* ... and only there: a committed key whose deletion is already pending counts against the limit
+   in the code exactly as in Substrate ("not cumulative when called inside the same block");
+   the history is guard-free, so C08_reads applies to it *)
+Example C08_limit_counts_deleted :
+  guard_free cfg_fixed w_tx_limit_deleted = true /\
+  fst (run cfg_fixed w_tx_limit_deleted ts_init) =
+    [RUnit; RUnit; RUnit; RUnit; RCount 1 false; RVal (Some v2); RUnit; RVal (Some v2)] /\
+  fst (srun w_tx_limit_deleted ss_init) =
+    [RUnit; RUnit; RUnit; RUnit; RCount 1 false; RVal (Some v2); RUnit; RVal (Some v2)].
+Proof. exact fixed_tx_limit_deleted. Qed.
+
+(* The check's verdict is the property predicate.  The driver evaluates the extracted boolean
+   agrees_b on the IMPLEMENTATION's view (observations + final contents printed by the harness):
+   on the view of a run without panic it implies [agrees]; and the model's own view passes it on
+   every guard-free history, so on a guard-free history the check can only report a property
+   failure when the implementation's view differs from the model's (model_ok = false). *)
+Theorem C08_check_sound : forall ops (r : list obs * tstate),
+  existsb is_panic (fst r) = false ->
+  agrees_b (view_of r) ops = true -> agrees r (srun ops ss_init) ops.
+Proof. exact agrees_b_sound. Qed.
+Print Assumptions C08_check_sound.
+
+Theorem C08_check_complete : forall ops, guard_free cfg_fixed ops = true ->
+  agrees_b (view_of (run cfg_fixed ops ts_init)) ops = true.
+Proof. exact agrees_b_model. Qed.
+Print Assumptions C08_check_complete.
